@@ -82,7 +82,7 @@ Proof. reflexivity. Qed.
 Lemma cf_udp_len : compute_functions (mkfid P_UDP 2) = Some (udp_length, []).
 Proof. reflexivity. Qed.
 Lemma cf_udp_ck : compute_functions (mkfid P_UDP 3) =
-  Some (udp_checksum, [UDP_LENGTH; IPV6_SRC_ADDRESS; IPV6_DST_ADDRESS; IPV4_SRC_ADDRESS; IPV4_DST_ADDRESS]).
+  Some (udp_checksum, UDP_CHECKSUM_DEPS).
 Proof. reflexivity. Qed.
 Lemma cf_v4_len : compute_functions (mkfid P_IPv4 3) = Some (ipv4_total_length, []).
 Proof. reflexivity. Qed.
@@ -150,7 +150,7 @@ Definition E6 (b3 b10 b11 : bool) : list centry :=
   (if b3 then [mkcentry 3 (mkfid P_IPv6 3) ipv6_payload_length []] else []) ++
   (if b10 then [mkcentry 10 (mkfid P_UDP 2) udp_length []] else []) ++
   (if b11 then [mkcentry 11 (mkfid P_UDP 3) udp_checksum
-                  [UDP_LENGTH; IPV6_SRC_ADDRESS; IPV6_DST_ADDRESS; IPV4_SRC_ADDRESS; IPV4_DST_ADDRESS]] else []).
+                  UDP_CHECKSUM_DEPS] else []).
 
 Lemma v6_core b3 b10 b11 o0 o1 o2 o3 o4 o5 o6 o7 o8 o9 o10 o11 (T : list (fid * bits)) R :
   concat (map snd T) = R -> zlen o6 = 128 -> zlen o7 = 128 ->
@@ -245,9 +245,12 @@ Proof.
   apply Forall_map. exact H3.
 Qed.
 
-(* the compute stage of a lossless rule, from the facts rule_ok and spec_rule_applies give *)
-Lemma stack_roundtrip d pd r : pd_dir pd = d -> rule_ok_dec compute_functions d pd r -> spec_rule_applies pd r = true ->
+(* the compute stage of a lossless rule, from the facts rule_ok and spec_rule_applies give.
+   ADDED premises (the model of list.sort covers fewer than 64 entries): the computable ids all lie among
+   the first n < 64 fields, hence at most n compute entries *)
+Lemma stack_roundtrip d pd r n : pd_dir pd = d -> rule_ok_dec compute_functions d pd r -> spec_rule_applies pd r = true ->
   order_ok (map f_id (pd_fields pd)) = true ->
+  (n < 64)%nat -> Forall (fun f => compute_functions (f_id f) = None) (skipn n (pd_fields pd)) ->
   (forall m, mask_ok compute_functions m (pd_fields pd) ->
      run_computes (ces_m compute_functions 0 m (pd_fields pd))
        (combine (map f_id (pd_fields pd)) (pre_m m (pd_fields pd)) ++ [(payload_fid, pd_payload pd)])
@@ -255,13 +258,17 @@ Lemma stack_roundtrip d pd r : pd_dir pd = d -> rule_ok_dec compute_functions d 
   exists s, compress pd r (Some d) = Ok s /\
             decompress compute_functions s r (Some d) = Ok (concat (map f_val (pd_fields pd)) ++ pd_payload pd).
 Proof.
-  intros Hd Hok HA HO HR.
+  intros Hd Hok HA HO Hn HRest HR.
   pose proof Hok as [(HN & _ & _ & _ & HLen & _ & HC) _].
   pose proof HA as HA'. unfold spec_rule_applies in HA'. rewrite HN, Hd in HA'.
   change (filter (applies d) (rule_fds r)) with (select_fds (Some d) (rule_fds r)) in HA'.
   destruct (mask_of_rule compute_functions _ _ HA' HLen HC) as (I1 & I2 & I3 & I4).
   apply (c01_roundtrip compute_functions d pd r Hd Hok HA); cbv zeta.
   - apply centries_sorted. rewrite I1. exact HO.
+  - assert (E : map r_id (select_fds (Some d) (rule_fds r)) = map f_id (firstn n (pd_fields pd)) ++ map f_id (skipn n (pd_fields pd)))
+      by (now rewrite I1, <- map_app, firstn_skipn).
+    pose proof (centries_prefix_bound compute_functions _ _ _ 0 E (proj2 (Forall_map _ _ _) HRest)) as B.
+    rewrite map_length in B. pose proof (firstn_le_length n (pd_fields pd)). lia.
   - rewrite I1, I2, I3. apply HR. exact I4.
 Qed.
 
@@ -271,8 +278,10 @@ Theorem c01_roundtrip_ipv6_udp d pd r :
   exists s, compress pd r (Some d) = Ok s /\
             decompress compute_functions s r (Some d) = Ok (concat (map f_val (pd_fields pd)) ++ pd_payload pd).
 Proof.
-  intros Hd Hok HA HS HC. apply stack_roundtrip; try assumption.
+  intros Hd Hok HA HS HC. apply (stack_roundtrip d pd r 12); try assumption.
   - destruct HS as (H1 & _ & H3 & _). apply (shape_order _ 12 _ H1); [vm_compute; reflexivity|exact H3].
+  - lia.
+  - destruct HS as (_ & _ & H3 & _). exact H3.
   - intros m HM. now apply v6_run.
 Qed.
 
@@ -359,7 +368,7 @@ Definition E4 (b3 b9 b14 b15 : bool) : list centry :=
                  (map (fun i => mkfid P_IPv4 i) [0; 1; 2; 3; 4; 5; 6; 7; 8; 10; 11])] else []) ++
   (if b14 then [mkcentry 14 (mkfid P_UDP 2) udp_length []] else []) ++
   (if b15 then [mkcentry 15 (mkfid P_UDP 3) udp_checksum
-                  [UDP_LENGTH; IPV6_SRC_ADDRESS; IPV6_DST_ADDRESS; IPV4_SRC_ADDRESS; IPV4_DST_ADDRESS]] else []).
+                  UDP_CHECKSUM_DEPS] else []).
 
 Lemma ph16 b v : zlen v = 16 -> ph b v = if b then repeat false 16 else v.
 Proof. intros H. unfold ph. replace (length v) with 16%nat by (unfold zlen in H; lia). reflexivity. Qed.
@@ -475,8 +484,10 @@ Theorem c01_roundtrip_ipv4_udp d pd r :
   exists s, compress pd r (Some d) = Ok s /\
             decompress compute_functions s r (Some d) = Ok (concat (map f_val (pd_fields pd)) ++ pd_payload pd).
 Proof.
-  intros Hd Hok HA HS HC. apply stack_roundtrip; try assumption.
+  intros Hd Hok HA HS HC. apply (stack_roundtrip d pd r 16); try assumption.
   - destruct HS as (H1 & _ & H3 & _). apply (shape_order _ 16 _ H1); [vm_compute; reflexivity|exact H3].
+  - lia.
+  - destruct HS as (_ & _ & H3 & _). exact H3.
   - intros m HM. now apply v4_run.
 Qed.
 
